@@ -76,8 +76,8 @@ def main(run):
     lines, meta = [], []
 
     # ---------------- full layout
-    nmax = 9 if thorough else 6
-    ncases = 60 if thorough else 18
+    nmax = 12 if thorough else 6
+    ncases = 400 if thorough else 40
     for c in range(ncases):
         n = rng.randint(1, nmax)
         level = rng.choice([0, 1, 1, 2, 3])
@@ -116,7 +116,7 @@ def main(run):
     names = ["sc", "cscl", "nacl_prim", "bcc", "hcp", "zincblende_prim", "triclinic", "bct", "fcc"]
     if thorough:
         names += ["nacl", "rutile", "mono_C", "ortho_C", "rhombo", "wurtzite", "diamond"]
-    ccases = 40 if thorough else 12
+    ccases = 250 if thorough else 30
     made = 0
     attempts = 0
     while made < ccases and attempts < 10 * ccases:
@@ -124,7 +124,7 @@ def main(run):
         name = rng.choice(names)
         cell, cen = gen.make_cell(name)
         smat = rng.choice(gen.supercell_matrices(rng, max_det=4 if not thorough else 8, count=12))
-        if len(cell) * int(round(np.linalg.det(smat))) > (24 if not thorough else 48):
+        if len(cell) * int(round(np.linalg.det(smat))) > (24 if not thorough else 64):
             continue
         pm = rng.choice(["auto", "P"]) if cen != "P" else "P"
         try:
@@ -220,12 +220,112 @@ def main(run):
                                   dict(cell=name, smat=smat.tolist(), pmat=pm))
             run.count("oracle-api", section="oracle")
 
+    # ---------------- space-group average (set_tensor_symmetry_PJ) on exactly rational cells
+    from fractions import Fraction
+
+    from phonopy.harmonic.force_constants import _get_atom_indices_by_symmetry, set_tensor_symmetry_PJ
+    from phonopy.structure.symmetry import Symmetry
+
+    pj_cases = 30 if thorough else 4
+    pj_names = ["sc", "cscl", "bct", "ortho_C", "perovskite", "bcc"]
+    done_pj = 0
+    tries = 0
+    while done_pj < pj_cases and tries < 40:
+        tries += 1
+        if rng.random() < 0.5:
+            cell, _ = gen.make_cell(rng.choice(pj_names))
+            lat = np.round(cell.cell * 8) / 8  # dyadic lattice, exactly rational
+            cell.cell = lat
+            name = "proto"
+        else:
+            cell = gen.random_cell(rng, natom=rng.randint(1, 3))
+            name = "random"
+        smat = rng.choice([np.diag([1, 1, 1]), np.diag([2, 1, 1]), np.diag([1, 1, 2]), np.array([[1, 1, 0], [0, 1, 0], [0, 0, 1]])])
+        try:
+            ph = gen.make_phonopy(cell, smat, pmat="P")
+        except Exception:
+            continue
+        sc = ph.supercell
+        sym = Symmetry(sc, symprec=1e-5)
+        rots = sym.symmetry_operations["rotations"]
+        trans = sym.symmetry_operations["translations"]
+        N, n = len(rots), len(sc)
+        if N > 64 or n > 12 or N < 2:
+            continue
+        L = sc.cell.T  # column vectors, as passed by the API
+        mapa = _get_atom_indices_by_symmetry(L, sc.scaled_positions, rots, trans, 1e-5)
+        Lf = [[Fraction(float(x)) for x in row] for row in L]
+
+        def fmat_mul(A, B):
+            return [[sum(A[i][k] * B[k][j] for k in range(3)) for j in range(3)] for i in range(3)]
+
+        def finv(A):
+            a, b, c_, d, e, f, g, h, i = [A[r][c] for r in range(3) for c in range(3)]
+            det = a * (e * i - f * h) - b * (d * i - f * g) + c_ * (d * h - e * g)
+            adj = [[e * i - f * h, c_ * h - b * i, b * f - c_ * e], [f * g - d * i, a * i - c_ * g, c_ * d - a * f], [d * h - e * g, b * g - a * h, a * e - b * d]]
+            return [[x / det for x in row] for row in adj]
+
+        Li = finv(Lf)
+        Cs, Cis = [], []
+        for r in rots:
+            rf = [[Fraction(int(x)) for x in row] for row in r]
+            sim = fmat_mul(fmat_mul(Lf, rf), Li)
+            Cg = [[sim[c][r_] for c in range(3)] for r_ in range(3)]  # transpose
+            Cs.append(Cg)
+            Cis.append(finv(Cg))
+        # group table: mul[g][h] = k with r_k = r_h r_g and perm_k = perm_h o perm_g
+        key = {}
+        for k in range(N):
+            key[(tuple(rots[k].ravel()), tuple(mapa[k]))] = k
+        mul = []
+        okmul = True
+        for g in range(N):
+            for h in range(N):
+                rr = rots[h] @ rots[g]
+                pp = tuple(mapa[h][mapa[g]])
+                k = key.get((tuple(rr.ravel()), pp))
+                if k is None:
+                    okmul = False
+                    k = 0
+                mul.append(k)
+        fc0 = gen.rand_rational_array(rng, (n, n, 3, 3))
+        fc = fc0.copy()
+        set_tensor_symmetry_PJ(fc, L, sc.scaled_positions, sym)
+        head = "%d %d %s %s %s" % (N, n, " ".join(str(int(x)) for x in mapa.ravel()),
+                                   " ".join(q(x) for C_ in Cs for row in C_ for x in row),
+                                   " ".join(q(x) for C_ in Cis for row in C_ for x in row))
+        lines.append("pjwf " + head + " " + " ".join(map(str, mul)))
+        meta.append(("pjwf", dict(cell=name, smat=smat.tolist(), N=N, n=n, closed=okmul), None, None, None))
+        lines.append("pj " + head + " " + _flat(fc0))
+        meta.append(("pj", dict(cell=name, smat=smat.tolist(), N=N, n=n), fc0, fc, (n, n, 3, 3)))
+        run.case(("pj", name, smat.tolist(), N, n, fc0.tobytes()), nontrivial=N > 1)
+        run.count("pj N=%d" % N)
+        # oracle: projection laws on the implementation
+        again = fc.copy()
+        set_tensor_symmetry_PJ(again, L, sc.scaled_positions, sym)
+        if not _close(again, fc):
+            run.violation("set_tensor_symmetry_PJ", "not-idempotent", "group average applied twice differs by %.3g" % np.abs(again - fc).max(),
+                          dict(lattice=sc.cell.tolist(), positions=sc.scaled_positions.tolist(), numbers=sc.numbers.tolist(), fc=fc0.tolist()))
+        inv = gen.pair_fc(sc, cutoff=0.45 * gen.min_lattice_vector(sc.cell))
+        inv2 = inv.copy()
+        set_tensor_symmetry_PJ(inv2, L, sc.scaled_positions, sym)
+        if not _close(inv2, inv):
+            run.violation("set_tensor_symmetry_PJ", "changes-invariant-input", "space-group-invariant force constants changed by %.3g" % np.abs(inv2 - inv).max(),
+                          dict(lattice=sc.cell.tolist(), positions=sc.scaled_positions.tolist(), numbers=sc.numbers.tolist()))
+        run.count("oracle-pj", section="oracle")
+        done_pj += 1
+
     # ---------------- correspondence with the Lean model
     out = common.lean_run_driver("C07", lines)
     if len(out) != len(lines):
         run.broke("correspondence", "driver answered %d lines for %d requests" % (len(out), len(lines)))
     ncmp = 0
     for (kind, info, inp, impl, shape), line in zip(meta, out):
+        if kind == "pjwf":
+            run.count("pj-group-certificates", section="correspondence")
+            if line != "true":
+                run.broke("correspondence", "operation list fails the closure certificate pjWf (%s)" % line, info)
+            continue
         if kind == "wf":
             run.count("wf-certificates", section="correspondence")
             if line != "true":
